@@ -183,11 +183,11 @@ def transform_history(case: dict[str, Any], tr: str, rng: Any) -> tuple[dict[str
         ops = delta(prev, trees[i])
         if tr == "one_file_at_a_time" and len(ops) > 1:
             for op in ops:
-                steps.append({"edits": [op], "gap_s": 2.0, "run": True})
+                steps.append({"edits": [op], "gap_s": 2.0, "run": True, "tree": i})
         else:
             if tr == "touch_noise" and prev:
                 ops = ops + [{"e": "touch", "path": rng.choice(sorted(prev))}]
-            steps.append({"edits": ops, "gap_s": 2.0, "run": True})
+            steps.append({"edits": ops, "gap_s": 2.0, "run": True, "tree": i})
         prev = trees[i]
     if tr == "restore_backup" and steps:
         # the last step puts the first version back the way `mv f.orig f` / `cp -p` / a restore from
@@ -195,4 +195,6 @@ def transform_history(case: dict[str, Any], tr: str, rng: Any) -> tuple[dict[str
         for op in steps[-1]["edits"]:
             if op["e"] == "write":
                 op["restore_mtime"] = True
+    for st in steps:
+        st["start_tree"] = seq[0]
     return trees[seq[0]], steps
